@@ -27,7 +27,7 @@ valid UTF-8, which is the hypothesis `IsUtf8` (decided by `Reader.validUtf8`, se
 
 What the theorems are about: `Print.renderRecord o .json` — the record line inside `Print.printAll`, the
 function the `print` driver executes — for ANY row: INT, finite REAL (the shipped ryu text, assumed to be
-a JSON number: `RealTextOk`, a decidable check per text) and non-finite REAL (→ `null`), TEXT with any
+a JSON number: `RealTextsOk`, a decidable check per text that the `print` driver evaluates on every case) and non-finite REAL (→ `null`), TEXT with any
 characters, BOOLEAN, NULL, arrays of any depth, timestamps, intervals; and any column names.
 -/
 namespace Sqlgrep.Props.C17Json
@@ -103,17 +103,18 @@ encoding of a text derived from `object` (RFC 8259 §4) — for rows of any valu
 non-finite REAL, TEXT with any characters, BOOLEAN, NULL, arrays at any depth, timestamps, intervals),
 for any column names (repeated names and a column list shorter or longer than the row included: the
 theorem needs neither `Nodup` nor equal lengths). Hypotheses: column names and TEXT payloads are valid
-UTF-8 (Rust `String`s), and the text shipped for each finite REAL is a JSON number (`RealTextOk`). -/
-theorem printed_record_is_json (o : RealOracle) (ho : RealTextOk o) (cols : List Bytes) (row : List Value)
-    (hcols : ∀ c ∈ cols, IsUtf8 c) (htexts : ∀ v ∈ row, ∀ s ∈ allTexts v, IsUtf8 s) :
+UTF-8 (Rust `String`s), and the text shipped for each finite REAL of the row is a JSON number (`RealTextsOk`, decidable;
+`RealTextOk o` — the same for all REALs — implies it). -/
+theorem printed_record_is_json (o : RealOracle) (cols : List Bytes) (row : List Value)
+    (hreal : ∀ v ∈ row, RealTextsOk o v) (hcols : ∀ c ∈ cols, IsUtf8 c) (htexts : ∀ v ∈ row, ∀ s ∈ allTexts v, IsUtf8 s) :
     ∃ line : List Char, encode line = renderRecord o .json cols row ∧ Obj line ∧ JsonText line := by
-  obtain ⟨line, ms, h1, h2⟩ := record_is_object o ho cols row hcols htexts
+  obtain ⟨line, ms, h1, h2⟩ := record_is_object o cols row hreal hcols htexts
   exact ⟨line, h1, h2.obj, object_is_json_text line h2.obj⟩
 
 /-- **The whole output of a JSON printer** (`printAll`: any sequence of `print` calls, any state): every
 line handed to `println` is either the blank separator line or the UTF-8 encoding of a JSON object. -/
-theorem printed_json_lines_are_json (o : RealOracle) (ho : RealTextOk o) (first : Bool)
-    (seq : List (ResultRow × Bool))
+theorem printed_json_lines_are_json (o : RealOracle) (first : Bool) (seq : List (ResultRow × Bool))
+    (hreal : ∀ cr ∈ allRows seq, ∀ v ∈ cr.2, RealTextsOk o v)
     (hcols : ∀ cr ∈ allRows seq, ∀ c ∈ cr.1, IsUtf8 c)
     (htexts : ∀ cr ∈ allRows seq, ∀ v ∈ cr.2, ∀ s ∈ allTexts v, IsUtf8 s) :
     ∀ l ∈ printAll o .json first seq,
@@ -123,7 +124,7 @@ theorem printed_json_lines_are_json (o : RealOracle) (ho : RealTextOk o) (first 
   | inl h => exact Or.inl h
   | inr h =>
     obtain ⟨cr, hcr, rfl⟩ := h
-    obtain ⟨line, h1, h2, _⟩ := printed_record_is_json o ho cr.1 cr.2 (hcols cr hcr) (htexts cr hcr)
+    obtain ⟨line, h1, h2, _⟩ := printed_record_is_json o cr.1 cr.2 (hreal cr hcr) (hcols cr hcr) (htexts cr hcr)
     exact Or.inr ⟨line, h1, h2⟩
 
 /-! ## ... whose members are the column names in order with the row's values -/
@@ -138,8 +139,8 @@ TIMESTAMP / INTERVAL → the string of their text form. This is `json_record_rec
 with the RFC grammar in the place of `readObject` and the RFC string / number denotation in the place of
 `jsonUnescape` / `parseInt`, and with REAL cells included. The member list is THE denotation of the line
 (any other derivation denotes the same members), and it is what the parser `parseJson` returns. -/
-theorem json_record_denotes_row (o : RealOracle) (ho : RealTextOk o) (cols : List Bytes) (row : List Value)
-    (hd : cols.Nodup) (hl : cols.length = row.length)
+theorem json_record_denotes_row (o : RealOracle) (cols : List Bytes) (row : List Value)
+    (hreal : ∀ v ∈ row, RealTextsOk o v) (hd : cols.Nodup) (hl : cols.length = row.length)
     (hcols : ∀ c ∈ cols, IsUtf8 c) (htexts : ∀ v ∈ row, ∀ s ∈ allTexts v, IsUtf8 s) :
     ∃ (line : List Char) (names : List (List Char)) (xs : List JVal),
       encode line = renderRecord o .json cols row
@@ -147,7 +148,7 @@ theorem json_record_denotes_row (o : RealOracle) (ho : RealTextOk o) (cols : Lis
       ∧ names.map encode = cols ∧ names.length = xs.length
       ∧ AllRel (CellDoc o) row xs
       ∧ (∀ ms', ObjD line ms' → ms' = names.zip xs) ∧ parseJson line = some (.obj (names.zip xs)) := by
-  obtain ⟨line, names, xs, h1, h2, h3, h4⟩ := record_denotes_row o ho cols row hd hl hcols htexts
+  obtain ⟨line, names, xs, h1, h2, h3, h4⟩ := record_denotes_row o cols row hreal hd hl hcols htexts
   refine ⟨line, names, xs, h1, h2.obj, h2, h3, ?_, h4, fun ms' h' => h'.unique h2, parseJson_complete (.object h2)⟩
   rw [← h4.length_eq, ← hl, ← h3, List.length_map]
 
@@ -155,7 +156,7 @@ theorem json_record_denotes_row (o : RealOracle) (ho : RealTextOk o) (cols : Lis
 (`cellOfJVal`: number with exponent 0 → INT, string → TEXT of its UTF-8 bytes, array → array) gives the
 cells, in order, up to `jsonMeaning` (timestamps / intervals as their text form, arrays without their
 static element type) — the conclusion of `json_record_recovers_row`, through the grammar. -/
-theorem json_record_recovers_row_rfc (o : RealOracle) (ho : RealTextOk o) (cols : List Bytes)
+theorem json_record_recovers_row_rfc (o : RealOracle) (cols : List Bytes)
     (row : List Value) (hd : cols.Nodup) (hl : cols.length = row.length)
     (hcols : ∀ c ∈ cols, IsUtf8 c) (htexts : ∀ v ∈ row, ∀ s ∈ allTexts v, IsUtf8 s)
     (hnr : ∀ v ∈ row, noReal v = true) :
@@ -163,7 +164,8 @@ theorem json_record_recovers_row_rfc (o : RealOracle) (ho : RealTextOk o) (cols 
       encode line = renderRecord o .json cols row ∧ Obj line ∧ ObjD line ms
       ∧ ms.map (fun m => encode m.1) = cols
       ∧ ms.map (fun m => cellOfJVal m.2) = row.map (fun v => some (jsonMeaning v)) := by
-  obtain ⟨line, names, xs, h1, h2, h3, h4, h5, h6, _, _⟩ := json_record_denotes_row o ho cols row hd hl hcols htexts
+  obtain ⟨line, names, xs, h1, h2, h3, h4, h5, h6, _, _⟩ := json_record_denotes_row o cols row
+    (fun v hv b hb => by rw [noReal_allReals (hnr v hv)] at hb; cases hb) hd hl hcols htexts
   refine ⟨line, names.zip xs, h1, h2, h3, ?_, ?_⟩
   · have : (names.zip xs).map (fun m => encode m.1) = (names.zip xs).unzip.1.map encode := by
       simp [List.unzip_eq_map, List.map_map]
@@ -176,11 +178,11 @@ theorem json_record_recovers_row_rfc (o : RealOracle) (ho : RealTextOk o) (cols 
 /-- REAL cells: the JSON value of a finite REAL is the number that the shipped text denotes by §6 (what
 ties that number to the f64 is ryu's shortest-round-trip guarantee — outside Lean, checked on the
 implementation by the harness); a non-finite REAL is `null`. -/
-theorem json_real_cell (o : RealOracle) (ho : RealTextOk o) (b : Nat) :
+theorem json_real_cell (o : RealOracle) (b : Nat) (ho : RealTextsOk o (.real b)) :
     ∃ x, CellDoc o (.real b) x ∧ Renders (jsonValue o (.real b)) x
       ∧ (isFinite b = true → ∃ d, x = .num d ∧ NumD (chars (o.json b)) d)
       ∧ (isFinite b = false → x = .null) := by
-  obtain ⟨x, h1, h2⟩ := cell_renders o ho (.real b) (by intro s hs; simp [allTexts] at hs)
+  obtain ⟨x, h1, h2⟩ := cell_renders o (.real b) ho (by intro s hs; simp [allTexts] at hs)
   refine ⟨x, h1, h2, ?_, ?_⟩
   · intro hf
     cases h1 with
@@ -282,7 +284,7 @@ example : renderRecord o1 .json [] [] = encode ['{', '}'] := by decide
 example : Obj ['{', '}'] := .empty (sep_bare '{') (sep_bare '}')
 example : ∃ line, encode line = renderRecord o1 .json [[97], [97], [98]] [.real 0, .int (-9223372036854775808), .real 0x7ff0000000000000]
     ∧ Obj line ∧ JsonText line :=
-  printed_record_is_json o1 o1_ok _ _ (by intro c hc; apply utf8_check_decides; revert c; decide)
+  printed_record_is_json o1 _ _ (fun v _ => o1_ok.value v) (by intro c hc; apply utf8_check_decides; revert c; decide)
     (by intro v hv s hs; apply utf8_check_decides; revert s; revert v; decide)
 
 -- a TEXT payload that is not UTF-8 (impossible for a Rust `String`) is outside the hypotheses
